@@ -142,11 +142,31 @@ def gen_transpose_chain(rng: Rng) -> tuple[GB, dict]:
             attrs = {"alpha": 0.1} if op in ("LeakyRelu", "Elu") else {}
             cur = gb.node(op, [cur], domain=dom, **attrs)
             desc["chain"].append(op)
-        elif c < 65:
+        elif c < 62:
             to = rng.choice([TensorProto.FLOAT16, TensorProto.DOUBLE])
             cur = gb.node("Cast", [cur], to=to)
             cur = gb.node("Cast", [cur], to=F32)
             desc["chain"].append(f"Cast{to}")
+        elif c < 68:
+            # CastLike: the chain value as data operand, or (dangerous) only as the dtype operand
+            if rng.chance(0.6):
+                like = gb.const(np.asarray(1.0, dtype=np.float32)) if rng.chance(0.5) else gb.inp(lay)
+                cur = gb.node("CastLike", [cur, like])
+                desc["chain"].append("CastLike:data")
+            else:
+                other = gb.inp(lay)
+                cur = gb.node("CastLike", [other, cur])
+                desc["chain"].append("CastLike:dtype_operand")
+                desc["guards"].append("chain_only_dtype_operand")
+        elif c < 73:
+            lo = gb.const(np.asarray(-1.5, dtype=np.float32))
+            if rng.chance(0.7):
+                hi = gb.const(np.asarray(2.5, dtype=np.float32))
+            else:
+                hi = side_operand(gb, rng, "full_const", lay)
+                desc["guards"].append("nonscalar_side_operand")
+            cur = gb.node("Clip", [cur, lo, hi])
+            desc["chain"].append("Clip")
         else:
             op = rng.choice(["Add", "Mul", "Max", "Min", "Sub"])
             kind = rng.choice(["scalar", "scalar", "scalar1d", "full_const", "full_input", "bias"])
@@ -183,9 +203,22 @@ def gen_transpose_chain(rng: Rng) -> tuple[GB, dict]:
                                    [helper.make_empty_tensor_value_info("then_out")])
         else_g = helper.make_graph([helper.make_node("Abs", [m], ["else_out"])], "else", [],
                                    [helper.make_empty_tensor_value_info("else_out")])
-        o = gb.node("If", [cond], then_branch=then_g, else_branch=else_g)
+        if rng.chance(0.5):
+            # capture only at nesting depth 2: If inside an If branch
+            inner = helper.make_node("If", [cond], ["inner_out"], then_branch=then_g, else_branch=else_g)
+            outer_then = helper.make_graph([inner], "outer_then", [],
+                                           [helper.make_empty_tensor_value_info("inner_out")])
+            outer_else = helper.make_graph([helper.make_node("Identity", [x], ["oe_out"])] if False else
+                                           [helper.make_node("Constant", [], ["oe_out"],
+                                                             value=numpy_helper.from_array(
+                                                                 np.zeros((1,), dtype=np.float32)))],
+                                           "outer_else", [], [helper.make_empty_tensor_value_info("oe_out")])
+            o = gb.node("If", [cond], then_branch=outer_then, else_branch=outer_else)
+            desc["guards"].append("intermediate_captured_depth2")
+        else:
+            o = gb.node("If", [cond], then_branch=then_g, else_branch=else_g)
+            desc["guards"].append("intermediate_captured_by_body")
         gb.out(o)
-        desc["guards"].append("intermediate_captured_by_body")
     return gb, desc
 
 
@@ -405,6 +438,19 @@ def gen_reshape(rng: Rng) -> tuple[GB, dict]:
     return gb, desc
 
 
+def gen_reshape_empty(rng: Rng) -> tuple[GB, dict]:
+    """Reshape pairs on empty tensors: a concrete 0 extent next to one uncomparable extent."""
+    gb = GB()
+    n_real = rng.choice([3, 5])
+    tgt_n = rng.choice([3, 5])
+    x = gb.inp([0, "N"])
+    flat = gb.node("Reshape", [x, gb.const(np.asarray([-1], dtype=np.int64))])
+    cur = gb.node(rng.choice(["Relu", "Tanh", "Identity"]), [flat]) if rng.chance(0.7) else flat
+    back = gb.node("Reshape", [cur, gb.const(np.asarray([0, tgt_n], dtype=np.int64))], allowzero=1)
+    gb.out(gb.node("Neg", [back]) if rng.chance(0.5) else back)
+    return gb, {"family": "reshape_empty", "guards": ["zero_extent"], "tgt_n": tgt_n}
+
+
 def gen_identity_reshape(rng: Rng) -> tuple[GB, dict]:
     a, b = rng.sample([2, 3, 4, 5], 2)
     gb = GB()
@@ -478,6 +524,7 @@ def gen_dropout(rng: Rng) -> tuple[GB, dict]:
 FAMILIES = [
     (gen_transpose_chain, 34), (gen_add_forest, 14), (gen_elem_dag, 12), (gen_reduce, 10),
     (gen_reshape, 14), (gen_identity_reshape, 3), (gen_casts, 8), (gen_swish, 3), (gen_dropout, 2),
+    (gen_reshape_empty, 3),
 ]
 
 
